@@ -41,5 +41,5 @@ GrammarLaw ==
   /\ StatusOk(w, 1, RespHead(w, 1, Big))
   /\ (fs.ok /\ HeadersEnd(Drop(w, fs.len)) > 0) => RespHead(w, 0, Big).o = "ok"
 \* vacuity probe (by hand: must be VIOLATED)
-ProbeAccept == ~(RespHead(Flat(toks), 0, Big).o = "ok" /\ RespHead(Flat(toks), 0, Big).consumed > 0 /\ RespHead(Flat(toks), 0, Big).reason # <<>>)
+ProbeAccept == ~(RespHead(Flat(toks), 0, Big).o = "ok" /\ RespHead(Flat(toks), 0, Big).consumed > 0)
 ====
